@@ -10,6 +10,51 @@ import re
 from ..core import walk, strip, is_var, callee, const_of, apath, fields_of, show, short_loc, AnalysisBroken
 from ..result import RuleResult, Violation
 
+def _remaining_room(prog, f, dst, size):
+    """the size argument is  K - (P - B)  with P the destination cursor, B an array of at least K bytes - written in place or returned by a
+    one-expression helper to which the record holding cursor and array is passed"""
+    def unk(t):
+        while isinstance(t, list) and t and t[0] == "k":
+            t = t[2]
+        return t
+
+    def matches(expr, subst):
+        e = unk(expr)
+        if not (isinstance(e, list) and e and e[0] == "b" and e[1] == "-"):
+            return False
+        K = const_of(e[2])
+        d = unk(e[3])
+        if K is None or not (isinstance(d, list) and d and d[0] == "b" and d[1] == "-"):
+            return False
+        P, B = show(unk(d[2])), show(unk(d[3]))
+        for a_, b_ in subst:
+            P, B = P.replace(a_, b_), B.replace(a_, b_)
+        if P != show(unk(dst)):
+            return False
+        # the array: a record field / local array of at least K bytes
+        bt = unk(d[3])
+        size = None
+        if isinstance(bt, list) and bt and bt[0] == "m":
+            rec, fld = bt[2].split("::")
+            for x in (prog.records.get(rec) or {}).get("fields", ()):
+                if x[0] == fld:
+                    m_ = __import__("re").search(r"\[(\d+)\]", x[1])
+                    size = int(m_.group(1)) if m_ else None
+        return size is not None and K <= size
+    if matches(size, []):
+        return True
+    s0 = unk(size)
+    if isinstance(s0, list) and s0 and s0[0] == "c" and s0[1]:
+        g = prog.resolve(f, s0[1])
+        if g is not None and g.live is not None:
+            rets = [e for b_, i_, e in g.elements() if e[0] == "R" and e[1] is not None]
+            others = [e for b_, i_, e in g.elements() if e[0] not in ("R",)]
+            if len(rets) == 1 and not others:
+                subst = [(g.params[k_][0], show(unk(a))) for k_, a in enumerate(s0[3]) if k_ < len(g.params)]
+                return matches(rets[0][1], subst)
+    return False
+
+
 UNBOUNDED = {"strcpy": (0, 1), "strcat": (0, 1), "sprintf": (0, None), "vsprintf": (0, None), "gets": (0, None)}
 BOUNDED = {"snprintf": (0, 1), "vsnprintf": (0, 1), "strncpy": (0, 2), "strncat": (0, 2), "memcpy": (0, 2), "memmove": (0, 2)}
 SCANF = {"sscanf": 1, "fscanf": 1}
@@ -187,6 +232,8 @@ def run(prog, scope_units=None, scope_funcs=None, rule="R-BUF", exceptions=EXCEP
                         res.violations.append(Violation(rule, "%s|%s into %s: size %d exceeds the %d-byte destination" % (f.name.replace("mpq_", ""), n, dtxt, sz, dsz),
                                                         f.name, short_loc(c[4]), "%s: the given size %d is larger than the destination array (%d bytes)" % (show(c)[:120], sz, dsz)))
                         continue
+                elif len(args) > k and _remaining_room(prog, f, dst, args[k]):
+                    verdict = "size is the room that remains in the array behind the cursor (sizeof (array) - (cursor - array))"
                 elif len(args) > k and any(nd[0] == "b" and nd[1] == "+" for nd in walk(args[k])) and n in ("snprintf", "vsnprintf"):
                     verdict = "size expression computed from the required length (two-pass formatting)"
                 elif dsz is None and n in ("memcpy", "memmove") and exceptions.get((f.name, n, dtxt)) is None:
